@@ -53,6 +53,7 @@ struct Ctx<'a> {
   over_cap: bool,
   kinds: BTreeMap<String, u64>,
   src_words: Vec<(String, String)>, // (field, raw word) of live docs
+  src_seqs: Vec<(String, Vec<String>)>, // (field, raw words of all values in order) of live docs
 }
 
 fn lev(a: &str, b: &str) -> usize {
@@ -267,6 +268,28 @@ fn pick_value_for(rng: &mut Rng, cx: &Ctx, field: &str) -> String {
   }
 }
 
+/// words taken in order from one live document's field, skipping 0-2 words between picks
+fn doc_phrase(rng: &mut Rng, cx: &Ctx) -> Option<(String, Vec<String>)> {
+  if cx.src_seqs.is_empty() {
+    return None;
+  }
+  let (f, seq) = &cx.src_seqs[rng.below(cx.src_seqs.len() as u64) as usize];
+  let n = 2 + rng.below(3) as usize;
+  let mut i = rng.below(seq.len() as u64) as usize;
+  let mut terms = vec![seq[i].clone()];
+  while terms.len() < n {
+    i += 1 + rng.below(3) as usize;
+    if i >= seq.len() {
+      break;
+    }
+    terms.push(seq[i].clone());
+  }
+  if terms.len() < 2 {
+    return None;
+  }
+  Some((f.clone(), terms))
+}
+
 fn gen_filter(rng: &mut Rng, cx: &mut Ctx, depth: u32) -> (Value, String) {
   let leaf = depth == 0 || cx.kw_fields.is_empty() || rng.chance(2, 3);
   if cx.kw_fields.is_empty() {
@@ -326,8 +349,14 @@ fn gen_qtext(rng: &mut Rng, cx: &Ctx, allow_fields: bool) -> String {
     parts.push(s);
   }
   if rng.chance(1, 4) {
-    let a = pick_word(rng, cx);
-    let b = pick_word(rng, cx);
+    let mut a = pick_word(rng, cx);
+    let mut b = pick_word(rng, cx);
+    if rng.chance(1, 2) {
+      if let Some((_, ts)) = doc_phrase(rng, cx) {
+        a = ts[0].replace('"', "");
+        b = ts[1].replace('"', "");
+      }
+    }
     if allow_fields && rng.chance(1, 3) {
       parts.push(format!("\"{}:{} {}\"", rng.pick(&cx.text_fields), a, b));
     } else {
@@ -457,9 +486,18 @@ fn gen_query(rng: &mut Rng, cx: &mut Ctx, depth: u32) -> (Value, String) {
       13..=15 => {
         cx.bump("phrase");
         let n = 1 + rng.below(3) as usize;
-        let terms: Vec<String> = (0..n).map(|_| pick_word(rng, cx)).collect();
-        let slop = if rng.chance(1, 2) { Some(rng.below(4)) } else { None };
-        let field = if rng.chance(3, 4) { Some(pick_field(rng, cx)) } else { None };
+        let mut terms: Vec<String> = (0..n).map(|_| pick_word(rng, cx)).collect();
+        let slop = if rng.chance(2, 3) { Some(rng.below(4)) } else { None };
+        let mut field = if rng.chance(3, 4) { Some(pick_field(rng, cx)) } else { None };
+        if rng.chance(2, 3) {
+          if let Some((f, ts)) = doc_phrase(rng, cx) {
+            cx.bump("phrase_from_document");
+            terms = ts;
+            if field.is_some() {
+              field = Some(f);
+            }
+          }
+        }
         let fields = match &field {
           Some(f) => vec![f.clone()],
           None => cx.text_fields.clone(),
@@ -771,6 +809,7 @@ fn main() {
       over_cap: false,
       kinds: BTreeMap::new(),
       src_words: Vec::new(),
+      src_seqs: Vec::new(),
     };
     let mut seg_lits = Vec::new();
     let mut live_total = 0usize;
@@ -800,6 +839,12 @@ fn main() {
           }
           let ia = an.index_analyzer(f).expect("index analyzer");
           let mut val_lits = Vec::new();
+          if live {
+            let seq: Vec<String> = values.iter().flat_map(|v| v.split_whitespace().map(|w| w.to_string())).collect();
+            if seq.len() >= 2 {
+              cx.src_seqs.push((f.clone(), seq));
+            }
+          }
           for v in values.iter() {
             if live {
               for w in v.split_whitespace() {
